@@ -11,7 +11,7 @@ import sys
 import numpy as np
 from scipy import sparse
 
-GETTERS = ["array", "volumes", "adjacency", "borders", "distances"]
+GETTERS = ["array", "volumes", "volumes_approx", "adjacency", "borders", "distances"]
 DIM = {"ico": 3, "cube3D": 3, "randomS": 3, "zero3D": 3, "cube4D": 4, "randomQ": 4, "fulldiv": 4, "zero4D": 4}
 
 
@@ -39,6 +39,8 @@ def call_getter(g, what):
         return g.get_grid_as_array(only_upper=False)
     if what == "volumes":
         return g.get_spherical_voronoi().get_voronoi_volumes()
+    if what == "volumes_approx":        # the same getter with its documented `approx` argument (3D: numerical estimate)
+        return g.get_spherical_voronoi().get_voronoi_volumes(approx=True)
     if what == "adjacency":
         return g.get_voronoi_adjacency()
     if what == "borders":
